@@ -102,6 +102,13 @@ def must_refuse_edits(cfg, iso, shadow):
     yield 'identifier-does-not-fit-record', (lambda: iso.add_fp(fp(), 5, iso_path='/' + 'N' * 246 + '.;1', **rr))
     if lvl >= 2:
         yield 'identifier-does-not-fit-record', (lambda: iso.add_fp(fp(), 5, iso_path='/' + 'N' * 220 + '.' + 'E' * 30 + ';1', **rr))
+    if cfg.rr:
+        # Rock Ridge entries that need more than one continuation block cannot be recorded
+        fresh = '/RRTOOBIG.;1'
+        yield 'rr-entries-exceed-continuation-block', (lambda: iso.add_fp(fp(), 5, iso_path=fresh, rr_name='n' * 3000))
+        yield 'rr-entries-exceed-continuation-block', (lambda: iso.add_directory(iso_path='/RRTOOBIG', rr_name='d' * 2500))
+        yield 'rr-entries-exceed-continuation-block', (lambda: iso.add_symlink(symlink_path=fresh, rr_symlink_name='s',
+                                                                                rr_path='/'.join(['t' * 200] * 14)))
     if cfg.joliet:
         yield 'empty-name:joliet', (lambda: iso.add_directory(joliet_path='/'))
         yield 'empty-name:joliet', (lambda: iso.add_fp(fp(), 5, joliet_path='/'))
